@@ -383,6 +383,10 @@ def run(ctx):
 
     # ============================================================ E2
     csr_bus_window(ctx, "E2")
+    from ..share import lift
+    lift(ctx, "c06", [("W4", "SoCRegion.decoder", "")], "E13",
+         "a published region answers at its published addresses only: SoCRegion.decoder compares the word address above one k with origin >> k, "
+         "origin and size converted from bytes to bus words by the same amount for every bus width (C06.W4 decides the same construct)", min_sites=2)
     fb = soc.method("SoC", "add_csr_bridge")
     ok = any(isinstance(n, ast.Call) and norm(n.func) == "SoCRegion" and any(k.arg == "size" and norm(k.value) == "csr_size" for k in n.keywords)
              for n in ast.walk(fb))
